@@ -1401,11 +1401,18 @@ func convGate(c *Ctx, prop string) gateResult {
 		// a scenario on which the converter's output depends on the schedule (in the simulator)
 		// or differs between two real runs is not a reference scenario: the exploration reports
 		// it as a determinism finding; it says nothing about the fidelity of the instrumentation
-		other := *cs
-		other.Steps = []Step{cs.Steps[0]}
-		other.Steps[0].Sched, other.Steps[0].Seed = "seeded", uint64(7919*(i+1))
-		res2 := c.RunStep(w, &other, 0, 60_000_000, false)
-		if same, _ := sameOutput(simOut, collectOutput(w, res2)); !same {
+		dependent := false
+		for k, sch := range []string{"rev", "seeded", "seeded"} {
+			other := *cs
+			other.Steps = []Step{cs.Steps[0]}
+			other.Steps[0].Sched, other.Steps[0].Seed = sch, uint64(7919*(i+1)+k)
+			res2 := c.RunStep(w, &other, 0, 60_000_000, false)
+			if same, _ := sameOutput(simOut, collectOutput(w, res2)); !same {
+				dependent = true
+				break
+			}
+		}
+		if dependent {
 			g.Skipped++
 			continue
 		}
